@@ -62,12 +62,19 @@ class Ob:
         self.smt2_relaxed = d.get("smt2_relaxed", "")
 
 
+_TIER = {"tier": "quick"}
+
+
 def _finding_for(kf_prop, kind, text, sig=""):
-    """The known finding (if any) whose matcher of this kind covers `text` (an obligation group or a violation key)."""
+    """The known finding (if any) whose matcher of this kind covers `text` (an obligation group or a violation key).
+    A matcher may be limited to a tier ("tiers": ["thorough"]): the thorough tier explores seed-dependent random cases
+    whose keys cannot be listed one by one; such a wider matcher never applies to the quick tier."""
     for f in kf_prop:
         ms = f.get("match", [])
         for m in ms if isinstance(ms, list) else [ms]:
             if m.get("kind") != kind:
+                continue
+            if m.get("tiers") and _TIER["tier"] not in m["tiers"]:
                 continue
             if kind == "vc" and re.fullmatch(m["obligation_regex"], text) and (not m.get("signature_regex") or re.fullmatch(m["signature_regex"], sig or "")):
                 return f
@@ -96,6 +103,7 @@ def run_property(pid: str, tier: str, seed: int) -> int:
     from . import solve, units
 
     t0 = time.time()
+    _TIER["tier"] = tier
     spec = _load_spec(pid)
     kf = _known_findings()
     kf_prop = [f for f in kf.get("findings", []) if f.get("property") == pid]
